@@ -715,6 +715,28 @@ def check_helpers(ctx):
                 and U(scale) == scale_p and size is not None and U(size) == size_p and not reass
             detail = '%s(loc=%s, scale=%s, size=%s)' % (U(c.func), U(loc) if loc is not None else None,
                                                        U(scale) if scale is not None else None, U(size) if size is not None else None)
+        elif len(rets) == 1 and isinstance(rets[0].value, ast.BinOp) and isinstance(rets[0].value.op, ast.Mult) and not reass:
+            # scale * <standard draw>: a location-scale family, s * D(0, 1) is D(0, s) (the same variates from the same stream)
+            v = rets[0].value
+            fac, c = (v.left, v.right) if isinstance(v.right, ast.Call) else (v.right, v.left)
+            if not (isinstance(c, ast.Call) and U(fac) == scale_p):
+                raise AnalysisError('%s: the returned noise `%s` is in no recognised form' % (fi.qualname, U(v)[:80]))
+            fn = U(c.func).split('.')[-1]
+            if fn == 'standard_normal' and dist == 'normal':
+                size = kwarg(c, 'size', 0)
+                ok = size is not None and U(size) == size_p and len(c.args) + len(c.keywords) == 1
+                detail = '%s * standard_normal(size=%s)' % (scale_p, U(size) if size is not None else None)
+            elif fn == dist:
+                loc, scale, size = kwarg(c, 'loc', 0), kwarg(c, 'scale', 1), kwarg(c, 'size', 2)
+                ok = (loc is None or U(loc) in ('0', '0.0')) and (scale is None or U(scale) in ('1', '1.0')) and size is not None and U(size) == size_p
+                detail = '%s * %s(loc=%s, scale=%s, size=%s)' % (scale_p, fn, U(loc) if loc is not None else 'default 0', U(scale) if scale is not None else 'default 1',
+                                                             U(size) if size is not None else None)
+                if not ok and loc is not None and U(loc) == size_p:
+                    detail += ' - the first positional parameter of %s is the LOCATION: one variate centred at the requested size is drawn and broadcast over the cells' % fn
+            else:
+                raise AnalysisError('%s: the returned noise `%s` draws from `%s`, which is not a recognised sampler' % (fi.qualname, U(v)[:80], U(c.func)))
+        elif len(rets) == 1 and not isinstance(rets[0].value, ast.Call) and not reass:
+            raise AnalysisError('%s: the returned noise `%s` is in no recognised form' % (fi.qualname, U(rets[0].value)[:80]))
         ctx.ob('sampler-identity', fi, rets[0] if rets else fi.node, ok,
                'must draw %s noise with loc 0 and exactly the scale `%s` it is given; draws %s' % (dist, scale_p, detail))
 
